@@ -56,6 +56,8 @@ ASSUMPTIONS = {
 }
 
 ALGS = ["sha1", "sha256", "sha512"]
+# every other hash the platform's hashlib offers that is long enough for RFC 4226 truncation (names with digits / underscores)
+EXTRA_ALGS = ["sha224", "sha384", "sha3_256", "sha3_512", "sha3_224", "blake2b", "blake2s"]
 LABEL_ALPHABET = ["a", "B", "7", " ", "@", "/", "%", "&", "=", "+", "?", "#", ";", "é", "ß", "漢", "_", ".", "-", "%41", " x"]
 MAX_DT = 253402300800 - 2 * 86400  # datetime.max as a timestamp, minus margin
 
@@ -74,7 +76,7 @@ def _gen_text(rng, maxlen=10):
 def _gen_account(rng, prop):
     period = rng.choice([1, 2, 3, 5, 10, 30, 30, 30, 60, 45, 3600, rng.randint(1, 3600)])
     digits = rng.choice([6, 6, 6, 7, 8, 9, 10])
-    alg = rng.choice(ALGS + ["sha1"])
+    alg = rng.choice(ALGS + ["sha1"]) if rng.random() < 0.85 else rng.choice(EXTRA_ALGS)
     klen = rng.choice([10, 16, 20, 20, 32, 64, rng.randint(10, 64)])
     if rng.random() < 0.08:
         klen = rng.randint(1, 9)
@@ -978,7 +980,10 @@ class _World:
         d.pop("enckey", None)
         src = None
         if kind == "uri_conflicting_issuer":
-            src = f"otpauth://totp/Acme:joe?secret={b32}&issuer=Other"
+            # two different issuer identifiers: unrelated ones, or ones that merely look alike (case, accents folded, blanks)
+            pre, par = [("Acme", "Other"), ("Acme", "ACME"), ("example.org", "Example.org"), ("%C3%89cole", "%C3%A9cole"),
+                        ("Stra%C3%9Fe", "STRASSE"), ("Acme", "Acme%20"), ("Acme", "acme"), ("Ac%20me", "Acme")][op["arg"] % 8]
+            src = f"otpauth://totp/{pre}:joe?secret={b32}&issuer={par}"
         elif kind == "uri_duplicate_secret":
             src = f"otpauth://totp/joe?secret={b32}&secret={b32}"
         elif kind == "uri_duplicate_digits":
